@@ -97,6 +97,9 @@ func run(t *testing.T, def *CheckDef, plan *Plan, keep bool) (*RunResult, *Exec)
 	if def.Exec != nil {
 		return def.Exec(t, plan), nil
 	}
+	if strings.HasPrefix(plan.Variant, "race-lazy-") {
+		return ExecuteLazyShared(t, plan), nil
+	}
 	return Execute(t, plan, def.Oracle, def.Final, keep)
 }
 
